@@ -200,36 +200,42 @@ theorem atomic_inner_end (e : Env) (a x : Pat) (st : St) :
   atomic_eq_of_headEq (headEq_seq_ltr a (headEq_atomic e false x)) st
 
 /-- the rewrite relation of `eliminateEndingBacktracking` in evaluation direction `rtl` -/
-inductive EndAtomic : Bool → Pat → Pat → Prop
-  | refl (rtl : Bool) (p : Pat) : EndAtomic rtl p p
-  | trans {rtl : Bool} {p q r : Pat} : EndAtomic rtl p q → EndAtomic rtl q r → EndAtomic rtl p r
+inductive EndAtomic (e : Env) : Bool → Pat → Pat → Prop
+  | refl (rtl : Bool) (p : Pat) : EndAtomic e rtl p p
+  | trans {rtl : Bool} {p q r : Pat} : EndAtomic e rtl p q → EndAtomic e rtl q r → EndAtomic e rtl p r
   /-- `makeLoopAtomic` on a greedy loop; wrapping an alternation, conditional or loop in Atomic -/
-  | wrap (rtl : Bool) (p : Pat) : EndAtomic rtl p (.atomic p)
+  | wrap (rtl : Bool) (p : Pat) : EndAtomic e rtl p (.atomic p)
   /-- `makeLoopAtomic` on a lazy loop, `case NtLazyloop: node.N = node.M` -/
   | lazyMin (rtl : Bool) (lo : Nat) (hi : Option Nat) (a : Pat) (h : ∀ c, c < lo → canGo hi c = true) :
-      EndAtomic rtl (.quant true lo hi a) (.quant true lo (some lo) a)
+      EndAtomic e rtl (.quant true lo hi a) (.quant true lo (some lo) a)
   /-- `case NtCapture, NtConcatenate`: recur into the last child -/
-  | seqLtr {x x' : Pat} (a : Pat) : EndAtomic false x x' → EndAtomic false (.seq a x) (.seq a x')
-  | seqRtl {a a' : Pat} (x : Pat) : EndAtomic true a a' → EndAtomic true (.seq a x) (.seq a' x)
-  | cap {rtl : Bool} {a a' : Pat} (g : Nat) : EndAtomic rtl a a' → EndAtomic rtl (.cap g a) (.cap g a')
+  | seqLtr {x x' : Pat} (a : Pat) : EndAtomic e false x x' → EndAtomic e false (.seq a x) (.seq a x')
+  | seqRtl {a a' : Pat} (x : Pat) : EndAtomic e true a a' → EndAtomic e true (.seq a x) (.seq a' x)
+  | cap {rtl : Bool} {a a' : Pat} (g : Nat) : EndAtomic e rtl a a' → EndAtomic e rtl (.cap g a) (.cap g a')
   /-- `case NtAlternate, NtBackRefCond, NtExprCond`: every branch -/
-  | alt {rtl : Bool} {a a' b b' : Pat} : EndAtomic rtl a a' → EndAtomic rtl b b' → EndAtomic rtl (.alt a b) (.alt a' b')
+  | alt {rtl : Bool} {a a' b b' : Pat} : EndAtomic e rtl a a' → EndAtomic e rtl b b' → EndAtomic e rtl (.alt a b) (.alt a' b')
   | refCond {rtl : Bool} {a a' b b' : Pat} (g : Nat) :
-      EndAtomic rtl a a' → EndAtomic rtl b b' → EndAtomic rtl (.refCond g a b) (.refCond g a' b')
+      EndAtomic e rtl a a' → EndAtomic e rtl b b' → EndAtomic e rtl (.refCond g a b) (.refCond g a' b')
   /-- the condition too (`reduceExpressionConditional`) -/
   | exprCond {rtl : Bool} {c c' a a' b b' : Pat} :
-      EndAtomic rtl c c' → EndAtomic rtl a a' → EndAtomic rtl b b' → EndAtomic rtl (.exprCond c a b) (.exprCond c' a' b')
+      EndAtomic e rtl c c' → EndAtomic e rtl a a' → EndAtomic e rtl b b' → EndAtomic e rtl (.exprCond c a b) (.exprCond c' a' b')
   /-- `case NtAtomic, NtPosLook, NtNegLook`: the child (a lookaround's child runs in its own direction) -/
-  | atomic {rtl : Bool} {a a' : Pat} : EndAtomic rtl a a' → EndAtomic rtl (.atomic a) (.atomic a')
+  | atomic {rtl : Bool} {a a' : Pat} : EndAtomic e rtl a a' → EndAtomic e rtl (.atomic a) (.atomic a')
   | look {rtl : Bool} {a a' : Pat} (behind neg : Bool) :
-      EndAtomic behind a a' → EndAtomic rtl (.look behind neg a) (.look behind neg a')
+      EndAtomic e behind a a' → EndAtomic e rtl (.look behind neg a) (.look behind neg a')
   /-- `case NtLoop: if node.N == 1` — an optional construct -/
   | optional {rtl : Bool} {a a' : Pat} (lzy : Bool) (lo : Nat) :
-      EndAtomic rtl a a' → EndAtomic rtl (.quant lzy lo (some 1) a) (.quant lzy lo (some 1) a')
+      EndAtomic e rtl a a' → EndAtomic e rtl (.quant lzy lo (some 1) a) (.quant lzy lo (some 1) a')
+  /-- `case NtLoop` / `NtLazyloop` with `FindLastExpressionInLoopForAutoAtomic`: the last expression
+      of the loop body, when the body cannot start at the positions `D` it gives back
+      (`(?:abc*)* => (?:ab(?>c*))*`); `Prunes` is closed under "last factor of a concatenation"
+      and "body of a capture" and contains "greedy character loop ⇒ its atomic form" -/
+  | loopBody {b b' : Pat} (D : Nat → Bool) (lzy : Bool) (lo : Nat) (hi : Option Nat) :
+      Prunes e D b b' → Kills e D b → EndAtomic e false (.quant lzy lo hi b) (.quant lzy lo hi b')
 
 /-- **ending-backtracking removal preserves the first success**, from every state: all the
     closure facts above composed. -/
-theorem end_atomic_head (e : Env) {rtl : Bool} {p q : Pat} (h : EndAtomic rtl p q) : HeadEq e rtl p q := by
+theorem end_atomic_head (e : Env) {rtl : Bool} {p q : Pat} (h : EndAtomic e rtl p q) : HeadEq e rtl p q := by
   induction h with
   | refl rtl p => exact HeadEq.refl e rtl p
   | trans _ _ ih1 ih2 => exact ih1.trans ih2
@@ -244,36 +250,55 @@ theorem end_atomic_head (e : Env) {rtl : Bool} {p q : Pat} (h : EndAtomic rtl p 
   | atomic _ ih => exact HeadEq.of_eq (atomic_eq_of_headEq ih)
   | look behind neg _ ih => exact HeadEq.of_eq (look_eq_of_headEq neg ih _)
   | optional lzy lo _ ih => exact headEq_quant_hi_one lzy lo ih
+  | loopBody D lzy lo hi hp hk => exact headEq_quant_prune lzy lo hi hp hk
 
 /-- **the whole pattern's result is unchanged when its ending backtracking constructs are made
     atomic** (`finalOptimize`: `rootNode.eliminateEndingBacktracking()`): same match and captures
     from every start position. -/
-theorem end_atomic_find (e : Env) {rtl : Bool} {p q : Pat} (h : EndAtomic rtl p q) (start : Nat) :
+theorem end_atomic_find (e : Env) {rtl : Bool} {p q : Pat} (h : EndAtomic e rtl p q) (start : Nat) :
     find e p rtl start = find e q rtl start :=
   find_congr_head (end_atomic_head e h) start
 
 /-- `reduceAtomic`: the same rewrite applied to the body of an atomic group keeps the group's
     whole list of successes — valid at any place in a pattern. -/
-theorem atomic_body_end_atomic (e : Env) {rtl : Bool} {a a' : Pat} (h : EndAtomic rtl a a') (st : St) :
+theorem atomic_body_end_atomic (e : Env) {rtl : Bool} {a a' : Pat} (h : EndAtomic e rtl a a') (st : St) :
     m e (.atomic a) rtl st = m e (.atomic a') rtl st :=
   atomic_eq_of_headEq (end_atomic_head e h) st
 
 /-- `reduceLookaround`: likewise for the body of a lookahead/lookbehind (direction `behind`). -/
-theorem look_body_end_atomic (e : Env) {behind : Bool} {a a' : Pat} (neg : Bool) (h : EndAtomic behind a a')
+theorem look_body_end_atomic (e : Env) {behind : Bool} {a a' : Pat} (neg : Bool) (h : EndAtomic e behind a a')
     (rtl : Bool) (st : St) :
     m e (.look behind neg a) rtl st = m e (.look behind neg a') rtl st :=
   look_eq_of_headEq neg (end_atomic_head e h) rtl st
 
 /-- `reduceExpressionConditional`: likewise for the condition of `(?(cond)yes|no)`. -/
-theorem exprCond_condition_end_atomic (e : Env) {rtl : Bool} {c c' : Pat} (a b : Pat) (h : EndAtomic rtl c c') (st : St) :
+theorem exprCond_condition_end_atomic (e : Env) {rtl : Bool} {c c' : Pat} (a b : Pat) (h : EndAtomic e rtl c c') (st : St) :
     m e (.exprCond c a b) rtl st = m e (.exprCond c' a b) rtl st :=
   exprCond_eq_of_headEq a b (end_atomic_head e h) st
 
 /-- `x(?:ab*|c+)?` ⇒ `x(?>(?:a(?>b*)|(?>c+))?)`: an instance of the relation -/
-example : EndAtomic false
+example (e : Env) : EndAtomic e false
     (.seq (lit 120) (.quant false 0 (some 1) (.alt (.seq (lit 97) (star 98)) (plus 99))))
     (.seq (lit 120) (.atomic (.quant false 0 (some 1) (.alt (.seq (lit 97) (.atomic (star 98))) (.atomic (plus 99)))))) :=
   .seqLtr _ (.trans (.optional _ _ (.alt (.seqLtr _ (.wrap _ _)) (.wrap _ _))) (.wrap _ _))
+
+/-- **a loop in tail position whose body ends in a character loop**: `(?:x c*)*` ⇒ `(?:x (?>c*))*`
+    when `x` fails in front of a rune that `c*` accepts (`StartsOutside e p x` of section 3; the condition
+    `lastConcatChild.canBeMadeAtomic(node.Children[0], false, false)` of
+    `FindLastExpressionInLoopForAutoAtomic`).  The positions `c*` gives back are not lost for the
+    loop's *exit* (nothing kills them there — this is the tail of the pattern), but they all come
+    after the first success. -/
+theorem loop_body_at_end (e : Env) (p : Pred) (lo' : Nat) (hi' : Option Nat) (x : Pat)
+    (hx : Kills e (acc e p) x) (lzy : Bool) (lo : Nat) (hi : Option Nat) :
+    HeadEq e false (.quant lzy lo hi (.seq x (.quant false lo' hi' (.chr p))))
+      (.quant lzy lo hi (.seq x (.atomic (.quant false lo' hi' (.chr p))))) :=
+  end_atomic_head e (.loopBody (acc e p) lzy lo hi ((prunes_charloop e p lo' hi').seq_last x) (kills_seq_first _ hx))
+
+/-- `(?:ab*)*` on "abbab": the full lists differ, the heads agree -/
+example : m (env [97, 98, 98, 97, 98]) (.quant false 0 none (.seq (lit 97) (star 98))) false st0
+      = [⟨5, []⟩, ⟨4, []⟩, ⟨3, []⟩, ⟨2, []⟩, ⟨1, []⟩, ⟨0, []⟩]
+    ∧ m (env [97, 98, 98, 97, 98]) (.quant false 0 none (.seq (lit 97) (.atomic (star 98)))) false st0
+      = [⟨5, []⟩, ⟨3, []⟩, ⟨0, []⟩] := by decide
 
 /-- the law is about the head only: the full lists differ (so the rewrite must not be applied where
     something can backtrack into the construct) -/
@@ -483,6 +508,27 @@ theorem prefix_factor (e : Env) (x a b : Pat) (st : St) (hx : (m e x false st).l
   simp only [m, Bool.false_eq_true, if_false]
   exact flatMap_append_of_length_le_one _ hx _ _
 
+/-- `extractCommonPrefixText`: the prefix is a literal string (One/Multi), which has at most one
+    success from every state, so the law applies unconditionally; a branch that *is* the prefix
+    leaves `Empty` behind (`processOneOrMulti`), `x` ≡ `x·Empty`. -/
+theorem prefix_factor_text (e : Env) (cs : List Nat) (a b : Pat) (st : St) :
+    m e (.alt (.seq (seqOf (cs.map lit)) a) (.seq (seqOf (cs.map lit)) b)) false st
+      = m e (.seq (seqOf (cs.map lit)) (.alt a b)) false st :=
+  prefix_factor e _ a b st
+    (atMostOne_seqOf _ (fun x hx => by
+      obtain ⟨c, _, rfl⟩ := List.mem_map.mp hx
+      exact atMostOne_chr e false _) st)
+
+theorem prefix_is_branch (e : Env) (x : Pat) (rtl : Bool) (st : St) : m e (.seq x .empty) rtl st = m e x rtl st :=
+  seq_empty_right e x rtl st
+
+/-- `extractCommonPrefixOneNotoneSet`: the prefix is one and the same One/Notone/Set node or a
+    fixed-count loop of one (`required.M == required.N`) -/
+theorem prefix_factor_repeater (e : Env) (p : Pred) (lzy : Bool) (n : Nat) (a b : Pat) (st : St) :
+    m e (.alt (.seq (.quant lzy n (some n) (.chr p)) a) (.seq (.quant lzy n (some n) (.chr p)) b)) false st
+      = m e (.seq (.quant lzy n (some n) (.chr p)) (.alt a b)) false st :=
+  prefix_factor e _ a b st (atMostOne_quant_fixed lzy n (atMostOne_chr e false p) st)
+
 /-- n-ary form, inside a longer alternation: the branches `[startingIndex, endingIndex)` that share
     the prefix are replaced by one branch `x(?:…)`; the branches before and after stay. -/
 theorem prefix_factor_range (e : Env) (x : Pat) (pre bs post : List Pat) (st : St)
@@ -641,6 +687,15 @@ theorem bumpalong_find (e : Env) (q : Pred) (lo : Nat) (F : Pat)
 /-- `a+b` on "aaac": the attempt at 0 fails, so do those at 1, 2, 3 -/
 example : attempt (env [97, 97, 97, 99]) (.seq (plus 97) (lit 98)) false 0 = none
     ∧ runLen (env [97, 97, 97, 99]) (.one 97 false) 0 = 3 := by decide
+
+example : attempt (env [97, 97, 97, 99]) (.seq (plus 97) (lit 98)) false 2 = none :=
+  bumpalong_sound (env [97, 97, 97, 99]) (.one 97 false) 1 _ (.seq _ .here) 0 2 (by decide) (by decide) (by decide)
+
+/-- the marker itself is `Empty` for the specification (the tree → `Pat` conversion of the harness
+    maps `UpdateBumpalong` to `.empty`), and `Empty` in a concatenation is a no-op -/
+theorem bumpalong_noop (e : Env) (l k : Pat) (rtl : Bool) (st : St) :
+    m e (.seq l (.seq .empty k)) rtl st = m e (.seq l k) rtl st := by
+  cases rtl <;> simp [m]
 
 /-- **the lazy loop inside an atomic group is the exception** (fixed in /repo by "no bump-along
     marker after a lazy loop that sits inside an atomic group", 6711234): `(?>a+?b?)c` on "aabc" —
